@@ -21,7 +21,7 @@ META = {
             "mj_invConstraint and the primal solvers both call mj_constraintUpdate(_impl)). "
             "Oracle on implementation output (random mjgen models with equality, friction-loss, limit, pyramidal and elliptic contacts of condim 1/3/4/6, tendons, springs/dampers, actuators, "
             "gravity compensation, joint and Cartesian applied forces; Euler, implicit, implicitfast; Newton, CG, PGS (PGS with pyramidal cones only, see C10-F1); mjDSBL_EULERDAMP / mjDSBL_DAMPER): "
-            "qfrc_inverse - applied = forward residual to 1e-9 for the primal solvers whether converged or not; a solver that stops before its iteration limit must leave a forward residual below 1e-6*scale (a larger one is a wrong qacc, not non-convergence); after a converged forward solve qfrc_inverse = qfrc_applied + J'xfrc_applied + "
+            "qfrc_smooth = passive - bias + qfrc_applied + qfrc_actuator + J'xfrc_applied to 1e-9 on the scale of these terms alone; qfrc_inverse - applied = forward residual to 1e-9 for the primal solvers whether converged or not; a solver that stops before its iteration limit must leave a forward residual below 1e-6*scale (a larger one is a wrong qacc, not non-convergence); after a converged forward solve qfrc_inverse = qfrc_applied + J'xfrc_applied + "
             "qfrc_actuator and efc_force(inverse) = efc_force(forward) to 1e-6*scale (1e-4*scale for PGS, whose stopping test bounds its accuracy only loosely), also with mjENBL_INVDISCRETE at the discrete acceleration produced by mj_Euler / mj_implicit (plus 1e5 x the forward residual, which the constraint stiffness amplifies there), and the "
             "mj_compareFwdInv statistics equal the independently computed norms. The fixed scene of the repaired finding C09-F1 (one damped hinge, Euler, dampers disabled) is checked on every run.",
     "note": "Trusted: Coq kernel + std-lib real-number axioms; hand-written models Model/FwdInv.v, Model/ConstraintUpdate.v; correspondence harness (gcc, drivers c09_fwdinv.c / c12_update.c, "
@@ -82,6 +82,10 @@ def parse(line):
     r["ds"], r["jnt_m2"], r["jnt_single"], r["anyd"] = ints(4) if p + 4 <= len(t) else (0, 0, 0, 1)
     r["nisland"], r["noninv"], r["enable"], r["disable"], r["sparse"] = ints(5) if p + 5 <= len(t) else (0, 0, 0, 0, 0)
     r["nfree"], r["lowfree"] = ints(2) if p + 2 <= len(t) else (0, 0)
+    if p + 6 <= len(t):
+        r["npt"], r["npf"], r["nsingle"], r["nother"] = ints(4); r["ptq"] = nums(1)[0]; r["nqa"] = ints(1)[0]
+    else:
+        r["npt"], r["npf"], r["nsingle"], r["nother"], r["ptq"], r["nqa"] = 0, 0, 0, 0, 0.0, 0
     return r
 
 
@@ -221,7 +225,7 @@ def oracle(ctx, recs, stats):
         combos[name] = combos.get(name, 0) + 1
         case = {"src": r["cfg"]["src"], "replay": {"seed": r["seed"], "step": r["step"]}, "integrator": INTEG[r["integ"]], "solver": SOLVER[r["solver"]],
                 "cone": "elliptic" if r["cone"] else "pyramidal", "mjDSBL_EULERDAMP": bool(r["eoff"]), "mjDSBL_DAMPER": bool(r["doff"]), "nv": nv, "nefc": r["nefc"],
-                "islands": r["nisland"], "dofs outside every island": r["nfree"], "one of them below an island dof": bool(r["lowfree"]), "island permutation not an involution": bool(r["noninv"]), "enableflags": r["enable"], "disableflags": r["disable"],
+                "bodies with pure torque / pure force / single component / other wrench": [r["npt"], r["npf"], r["nsingle"], r["nother"]], "islands": r["nisland"], "dofs outside every island": r["nfree"], "one of them below an island dof": bool(r["lowfree"]), "island permutation not an involution": bool(r["noninv"]), "enableflags": r["enable"], "disableflags": r["disable"],
                 "sparse jacobian": bool(r["sparse"]), "max |tendon-armature bias|": r["tbias"], "damping-source stratum": r["ds"], "joints with several damped/armature actuators": r["jnt_m2"], "rows": {"equality": r["ne"], "friction": r["nf"], "elliptic": r["nell"], "pyramidal": r["npyr"], "limit": r["nlim"]}, "niter": r["niter"]}
         sig0 = {"integrator": INTEG[r["integ"]], "cone": case["cone"]}
         def viol(site, cls, expected, observed, theorem):
@@ -238,6 +242,18 @@ def oracle(ctx, recs, stats):
             ndiv[0] += 1
             continue
         ntot += 1
+        # (0) the right-hand side of the forward equation, on the scale of the applied-side terms only (constraint forces can be orders of
+        #     magnitude larger and would hide a dropped wrench): qfrc_smooth = passive - bias + qfrc_applied + qfrc_actuator + J'xfrc_applied,
+        #     with J'xfrc_applied from mj_jac at the body centre of mass (computed by the driver, never by mj_xfrcAccumulate)
+        sa = 1 + max(mx(r["passive"]), mx(r["bias"]), mx(r["applied"]), mx(r["actuator"]), mx(r["xq"]))
+        dsm = [r["smooth"][i] - (r["passive"][i] - r["bias"][i] + r["applied"][i] + r["actuator"][i] + r["xq"][i]) for i in range(nv)]
+        if mx(dsm) > 1e-9 * sa:
+            worst = max(range(nv), key=lambda i: abs(dsm[i]))
+            viol("mj_fwdAcceleration", "qfrc_smooth-rhs", "qfrc_smooth = qfrc_passive - qfrc_bias + qfrc_applied + qfrc_actuator + J'xfrc_applied within 1e-9 * (1 + largest of these terms)",
+                 {"largest difference": dsm[worst], "dof": worst, "J'xfrc_applied there (mj_jac)": r["xq"][worst], "qfrc_applied there": r["applied"][worst],
+                  "scale of the applied-side terms": sa}, "C09_identity (qfrc_smooth of the forward equation)")
+        else:
+            stats.add("qfrc_smooth = passive - bias + applied + actuator + J'xfrc (mj_jac)")
         mis = [r["inverse"][i] - tot[i] for i in range(nv)]
         # (1) for the primal solvers, converged or not: inverse - applied = residual of the forward equation
         if r["solver"] != 0:
@@ -375,6 +391,14 @@ def run(ctx):
         1 for r in recs if r["lowfree"] and not (r["disable"] & (1 << 9)) and r["solver"] != 0)
     if not rep and nlf < 5:
         ctx.broken.append(("oracle", "too few records have an unconstrained tree whose dofs precede an island's dofs", "%d" % nlf))
+    ctx.cov["records_by_applied_force_support"] = {
+        "a body with a pure torque": sum(1 for r in recs if r["npt"] > 0), "pure torque with non-zero joint-space image": sum(1 for r in recs if r["ptq"] > 1e-9),
+        "a body with a pure force": sum(1 for r in recs if r["npf"] > 0), "a body with a single non-zero component": sum(1 for r in recs if r["nsingle"] > 0),
+        "a body with force and torque": sum(1 for r in recs if r["nother"] > 0), "no Cartesian wrench": sum(1 for r in recs if r["npt"] + r["npf"] + r["nother"] == 0),
+        "qfrc_applied = 0": sum(1 for r in recs if r["nqa"] == 0), "qfrc_applied on one dof": sum(1 for r in recs if r["nqa"] == 1)}
+    npt = ctx.cov["records_by_applied_force_support"]["pure torque with non-zero joint-space image"]
+    if not rep and npt < 10:
+        ctx.broken.append(("oracle", "too few records apply a pure torque that maps to a non-zero generalized force", "%d" % npt))
     ntb = sum(1 for r in recs if r["tbias"] > 1e-6)
     ctx.cov["records_with_nonzero_tendon_armature_bias"] = ntb
     if not rep and ntb < 0.1 * max(1, len(recs)):
